@@ -121,6 +121,17 @@ Definition japply (crc : list byte -> N) (s : jstate) (x : N * N * N * list byte
   let '(ts, user, code, payload, version, ok) := x in
   if ok then apply_ok crc s (mk_entry (next_index s) ts user code payload version) else s.
 
+(* FileState::init on an existing journal (a restarted server): the entries are loaded, the number of entries and the index
+   of the last one are taken from them; an unloadable journal is an error (the state stays as it is here) *)
+Definition jreopen (crc : list byte -> N) (cmd_ok : N -> list byte -> bool) (s : jstate) : jstate :=
+  match load crc cmd_ok (j_file s) with
+  | inl es => {| j_count := nlen es; j_cur := last (map e_index es) 0; j_file := j_file s |}
+  | inr _ => s
+  end.
+Inductive jop := JCmd (x : N * N * N * list byte * N * bool) | JReopen.
+Definition jstep (crc : list byte -> N) (cmd_ok : N -> list byte -> bool) (s : jstate) (o : jop) : jstate :=
+  match o with JCmd x => japply crc s x | JReopen => jreopen crc cmd_ok s end.
+
 (* ---------- CRC-32 (IEEE 802.3, reflected, as crc32fast::hash) ---------- *)
 Definition POLY : N := 3988292384.   (* 0xEDB88320 *)
 Fixpoint crc_bits (n : nat) (c : N) : N :=
